@@ -27,10 +27,10 @@ Inductive cl_client :=
 | ClDone.                          (* the call has returned *)
 
 Inductive cl_worker :=
-| WIdle                            (* in select *)
-| WLoading                         (* running a loader (returns eventually), then setValue *)
-| WSweepWant (i : nat)             (* removeRotted: before Lock() of shard i *)
-| WSweepHold (i : nat).            (* removeRotted: holds shard i *)
+| ClwIdle                            (* in select *)
+| ClwLoading                         (* running a loader (returns eventually), then setValue *)
+| ClwSweepWant (i : nat)             (* removeRotted: before Lock() of shard i *)
+| ClwSweepHold (i : nat).            (* removeRotted: holds shard i *)
 
 Record cl_cfg := { cl_ord : cl_order; cl_cap : nat; cl_nshards : nat }.
 
@@ -53,7 +53,7 @@ Definition cl_is_thread (l : cl_label) : bool :=
 Definition cl_client_holds (sh : nat) (c : cl_client) : bool :=
   match c with ClHold s _ => Nat.eqb s sh | ClSent s => Nat.eqb s sh | _ => false end.
 Definition cl_worker_holds (sh : nat) (w : cl_worker) : bool :=
-  match w with WSweepHold i => Nat.eqb i sh | _ => false end.
+  match w with ClwSweepHold i => Nat.eqb i sh | _ => false end.
 Definition cl_locked (s : cl_state) (sh : nat) : bool :=
   existsb (cl_client_holds sh) (cl_clients s) || existsb (cl_worker_holds sh) (cl_workers s).
 
@@ -77,18 +77,18 @@ Definition cl_client_step (cfg : cl_cfg) (s : cl_state) (c : cl_client) : option
   end.
 
 Definition cl_sweep_next (cfg : cl_cfg) (j : nat) : cl_worker :=
-  if j <? cl_nshards cfg then WSweepWant j else WIdle.
+  if j <? cl_nshards cfg then ClwSweepWant j else ClwIdle.
 
 Definition cl_worker_step (cfg : cl_cfg) (s : cl_state) (w : cl_worker) (pick_tick : bool)
   : option (cl_worker * nat * bool) :=
   let q := cl_queue s in
   match w with
-  | WIdle =>
+  | ClwIdle =>
       if pick_tick then (if cl_tick s then Some (cl_sweep_next cfg 0, q, false) else None)
-      else (if 0 <? q then Some (WLoading, q - 1, cl_tick s) else None)
-  | WLoading => Some (WIdle, q, cl_tick s)
-  | WSweepWant i => if cl_locked s i then None else Some (WSweepHold i, q, cl_tick s)
-  | WSweepHold i => Some (cl_sweep_next cfg (S i), q, cl_tick s)
+      else (if 0 <? q then Some (ClwLoading, q - 1, cl_tick s) else None)
+  | ClwLoading => Some (ClwIdle, q, cl_tick s)
+  | ClwSweepWant i => if cl_locked s i then None else Some (ClwSweepHold i, q, cl_tick s)
+  | ClwSweepHold i => Some (cl_sweep_next cfg (S i), q, cl_tick s)
   end.
 
 Definition cl_step (cfg : cl_cfg) (s : cl_state) (l : cl_label) : option cl_state :=
@@ -128,10 +128,10 @@ Fixpoint cl_run (cfg : cl_cfg) (s : cl_state) (ls : list cl_label) : option cl_s
   end.
 
 Definition cl_init (parallel : nat) (clients : list cl_client) : cl_state :=
-  {| cl_clients := clients; cl_workers := repeat WIdle parallel; cl_queue := 0; cl_tick := false |}.
+  {| cl_clients := clients; cl_workers := repeat ClwIdle parallel; cl_queue := 0; cl_tick := false |}.
 
 Definition cl_client_done (c : cl_client) : bool := match c with ClDone => true | _ => false end.
-Definition cl_worker_idle (w : cl_worker) : bool := match w with WIdle => true | _ => false end.
+Definition cl_worker_idle (w : cl_worker) : bool := match w with ClwIdle => true | _ => false end.
 
 (* nothing left to do: every call returned, every job loaded (so every future resolved),
    no sweep in progress or pending *)
@@ -158,9 +158,9 @@ Definition cl_client_weight (c : cl_client) : nat :=
   end.
 Definition cl_worker_weight (cfg : cl_cfg) (w : cl_worker) : nat :=
   match w with
-  | WIdle => 0 | WLoading => 1
-  | WSweepWant i => 2 * (cl_nshards cfg - i) + 2
-  | WSweepHold i => 2 * (cl_nshards cfg - i) + 1
+  | ClwIdle => 0 | ClwLoading => 1
+  | ClwSweepWant i => 2 * (cl_nshards cfg - i) + 2
+  | ClwSweepHold i => 2 * (cl_nshards cfg - i) + 1
   end.
 Definition cl_sum {A} (f : A -> nat) (l : list A) : nat := fold_right (fun x a => f x + a) 0 l.
 Definition cl_measure (cfg : cl_cfg) (s : cl_state) : nat :=
